@@ -72,6 +72,9 @@ class TokenSpec:
         log, errors = syn.parse_result(res)
         toks = syn.log_tokens(log)
         bad = []
+        rp = syn.root_problem(log)
+        if rp:
+            bad.append(rp)
         # C01: lossless
         if len(toks) != n:
             bad.append('C01: tree has %d tokens, input has %d' % (len(toks), n))
@@ -134,6 +137,79 @@ class TokenSpec:
         a['nerr_paths'] = a.get('nerr_paths', 0) + b.get('nerr_paths', 0)
         a['seen'] = a.get('seen', 0) + b.get('seen', 0)
         a.setdefault('validate', []).extend(b.get('validate', []))
+
+
+def parser_depth_info():
+    """(index of the `depth` field in struct Parser, MAX_DEPTH) read from the current source; None if the parser has no depth guard"""
+    import os, re
+    src = open(os.path.join(os.environ.get('VERIF_REPO', '/repo'), 'crates/syntax/src/parser.rs'), encoding='utf-8').read()
+    m = re.search(r'struct Parser(?:<[^>]*>)?\s*\{(.*?)\n\}', src, flags=re.S)
+    c = re.search(r'const MAX_DEPTH:\s*u32\s*=\s*(\d+)\s*;', src)
+    if not m or not c:
+        return None
+    fields = re.findall(r'^\s*(?:pub(?:\([^)]*\))?\s+)?(\w+)\s*:', m.group(1), flags=re.M)
+    if 'depth' not in fields:
+        return None
+    return fields.index('depth'), int(c.group(1))
+
+
+class DeepTokenSpec(TokenSpec):
+    """TokenSpec from a symbolic START STATE: the parser's nesting depth starts at an arbitrary d0 <= MAX_DEPTH - margin instead of 0.
+    prefix = P + N*j (j copies of a nesting opener).  Depth is only ever compared in Parser::enter, so the run equals the run on
+    P + N*(j+d0) + rest from depth 0 (as long as P itself stays below the limit: margin); counterexamples are replayed natively on that
+    pumped text.  Covers the depth-limit path of the parser for C01 (lossless) / C02 (no panic) / C20(i) (error ranges)."""
+
+    def __init__(self, n, P, N, j, rest=(), margin=4, lo='IDENT', hi='ERROR'):
+        TokenSpec.__init__(self, n, lo=lo, hi=hi, prefix=list(P) + list(N) * j, suffix=rest)
+        self.P = list(P); self.N = list(N); self.j = j; self.margin = margin
+
+    def make_interp(self):
+        it = TokenSpec.make_interp(self)
+        idx, mx = parser_depth_info()
+        self.d0 = z3.BitVec('d0', 32)
+        it.solver.add(z3.ULE(self.d0, mx - self.margin), z3.UGE(self.d0, mx - self.margin - self.j - 2))
+        d0 = self.d0
+
+        def hook(it_, agg):
+            f = agg.fields[idx]
+            if isinstance(f, IntV) and not f.sym() and f.v == 0 and f.bits == 32:
+                agg.fields[idx] = IntV(d0, 32, 0)
+            return agg
+        it.adt_hooks['Parser'] = hook
+        return it
+
+    def witness(self, it):
+        ks = TokenSpec.witness(self, it)
+        m = it.get_model()
+        d = m.eval(self.d0, model_completion=True).as_long()
+        return {'P': self.P, 'N': self.N, 'times': self.j + d, 'rest': ks[len(self.prefix):], 'start_depth': d}
+
+    def run_path(self, it):
+        rec = TokenSpec.run_path(self, it)
+        if 'cex' in rec:
+            rec['cex'] = {'deep': self.witness(it)}; rec['cex_alternatives'] = []
+        return rec
+
+    def on_panic(self, it, e):
+        rec = TokenSpec.on_panic(self, it, e)
+        rec['cex'] = {'deep': self.witness(it)}; rec['cex_alternatives'] = []
+        return rec
+
+    def accumulate(self, extra, rec, it):
+        tree = rec.get('_tree')
+        rec.pop('_tree', None)
+        TokenSpec.accumulate(self, extra, rec, it)
+        extra.pop('maxdepth', None); extra.pop('maxlook', None)
+        if tree is not None:
+            log, einfo = tree
+            ds = extra.setdefault('deep_samples', [])
+            if len(ds) < 40:
+                ds.append({'deep': self.witness(it), 'errors': [[s_, t_, k_] for (s_, t_, k_) in einfo], 'ntokens': len(syn.log_tokens(log))})
+
+    def merge_extra(self, a, b):
+        TokenSpec.merge_extra(self, a, b)
+        a.setdefault('deep_samples', []).extend(b.get('deep_samples', []))
+        del a['deep_samples'][40:]
 
 
 class LexStepSpec:
@@ -223,6 +299,9 @@ class PipelineSpec:
         log, errors = syn.parse_result(res)
         toks = syn.log_tokens(log)
         bad = []
+        rp = syn.root_problem(log)
+        if rp:
+            bad.append(rp)
         pos = 0
         for (k, off, ln) in toks:
             if off != pos or ln <= 0:
